@@ -28,7 +28,7 @@ import (
 	"verif/harness/rescorr"
 )
 
-const corpusDir = "/verif/corpus/C18"
+var corpusDir = lib.Root() + "/corpus/C18"
 
 // keys is the projection of the node records the property speaks about.
 var keys = []string{"kind", "dir", "rpc", "cfg", "mand", "def", "units", "key", "la", "type", "ns", "im"}
